@@ -42,7 +42,8 @@ class Topo:
                 f = l.split(" ")
                 kv = dict(x.split("=", 1) for x in f[2:] if "=" in x)
                 self.objs.append({"id": int(f[1]), "ty": int(kv["ty"]), "dp": int(kv["dp"]), "cs": parse_set(kv["cs"]),
-                                  "nds": parse_set(kv["nds"]), "ar": int(kv["ar"]), "par": kv["par"], "os": int(kv["os"])})
+                                  "nds": parse_set(kv["nds"]), "ar": int(kv["ar"]), "par": kv["par"], "os": int(kv["os"]),
+                                  "nm": kv.get("nm", "-").strip('"'), "st": kv.get("st", "-").strip('"')})
         self.root_cs = self.objs[0]["cs"] if self.objs else 0
         self.pus = [o for o in self.objs if o["ty"] == 4]
         self.normal = [o for o in self.objs if o["dp"] >= 0]
@@ -65,7 +66,16 @@ def gen_topologies(rng, tier):
     quick = tier == "quick"
     out = []
     fixed = ["pack:2 [numa] core:2 pu:2", "pu:1", "pu:5", "numa:2 pack:1 core:3 pu:1", "group:2 [numa] group:2 pack:2 [numa] pu:2",
-             "pack:3 l2:2 core:1 pu:3", "[numa] pack:2 die:2 [numa] l3:1 core:2 pu:1"]
+             "pack:3 l2:2 core:1 pu:3", "[numa] pack:2 die:2 [numa] l3:1 core:2 pu:1",
+             # several NUMA nodes below one parent (heterogeneous memory), NUMA on the machine and below packages
+             "pack:2 [numa] [numa] core:2 pu:2", "[numa] [numa] pack:2 [numa] core:1 pu:2",
+             # three Group levels (group depths 0,1,2 for hwloc_get_type_depth_with_attr)
+             "group:2 group:2 group:1 [numa] pu:2"]
+    # memory-side caches in front of NUMA nodes (hwloc_get_memory_parents_depth walks up through them)
+    out.append(("synthetic-memcache:pack:2 [numa(memorysidecachesize=1GB)] core:2 pu:1", "synthetic",
+                ["filter 15 0", "src synthetic pack:2 [numa(memorysidecachesize=1GB)] core:2 pu:1", "load"]))
+    out.append(("synthetic-memcache:[numa(memorysidecachesize=1GB)] pack:2 [numa] pu:2", "synthetic",
+                ["filter 15 0", "src synthetic [numa(memorysidecachesize=1GB)] pack:2 [numa] pu:2", "load"]))
     nsyn = 40 if quick else 250
     descs = fixed + [S.gen_synthetic(rng, max_pus=32 if quick else 64) for _ in range(nsyn)]
     for i, desc in enumerate(descs):
@@ -90,7 +100,8 @@ def gen_topologies(rng, tier):
         base = os.path.basename(x)
         if quick and os.path.getsize(x) > 120000 and rng.random() < 0.6:
             continue
-        cfgs = [["filter io 2"] if rng.random() < 0.8 else []]
+        # I/O (KEEP_ALL = 0 or KEEP_IMPORTANT = 3), Misc (type 19) and MemCache (type 15) objects are filtered out by default
+        cfgs = [["filter io %d" % rng.choice([0, 0, 3]), "filter 19 0", "filter 15 0"] if rng.random() < 0.85 else []]
         if not quick:
             cfgs.append(["filter all 2"])
         for cfg in cfgs:
@@ -99,7 +110,7 @@ def gen_topologies(rng, tier):
             keep = rng.getrandbits(48) | 1
             fl = rng.choice([0, 0, 1, 4])
             out.append(("xml-restricted:%s|%s|%d" % (base, fmt_set(keep), fl), "restricted",
-                        ["env HWLOC_LIBXML_IMPORT 1", "filter io 2", "src xml " + x, "load", "restrict %s %d" % (fmt_set(keep), fl)]))
+                        ["env HWLOC_LIBXML_IMPORT 1", "filter io 0", "filter 19 0", "filter 15 0", "src xml " + x, "load", "restrict %s %d" % (fmt_set(keep), fl)]))
     return out
 
 
@@ -180,6 +191,41 @@ def gen_queries(rng, t, tier, budget):
     for o in some(ids, 25 if small else 10):
         for ty in some(list(range(20)), 20 if small else 5):
             q.append("same_locality %d %d" % (o, ty))
+    # I/O and Misc sources; subtype / name-prefix filters taken from the objects themselves; flags
+    ioobjs = [o for o in t.objs if o["dp"] in IO_DEPTHS]
+    for o in some(ioobjs, 30 if tier == "quick" else 200):
+        for ty in (16, 17, 18, 19, 3, 14):
+            q.append("same_locality %d %d" % (o["id"], ty))
+    named = [o for o in t.objs if o["nm"] != "-" or o["st"] != "-"]
+    for o in some(named, 12 if tier == "quick" else 80):
+        for src in some(t.objs, 3):
+            st = o["st"] if o["st"] != "-" and rng.random() < 0.7 else "-"
+            np = o["nm"] if o["nm"] != "-" and rng.random() < 0.7 else "-"
+            if np != "-" and rng.random() < 0.5 and "%" not in np:
+                np = np[:rng.randint(1, len(np))]
+            if rng.random() < 0.4:
+                st, np = st.swapcase(), np.swapcase()      # strcasecmp
+            if rng.random() < 0.15:
+                np = np + "zz" if np != "-" else "zz"        # no match
+            for ty in (o["ty"], rng.randrange(20)):
+                q.append("same_locality %d %d %s %s %d" % (src["id"], ty, st, np, 0 if rng.random() < 0.93 else rng.choice([1, 2, 8])))
+            if src["dp"] in IO_DEPTHS or o["dp"] in IO_DEPTHS:
+                for ty in (17, 18):
+                    q.append("same_locality %d %d %s %s 0" % (src["id"], ty, st, np))
+    q.append("same_locality 0 0 - - 1")
+    for o in some(ids, 40 if small else 15) + [x["id"] for x in some(ioobjs, 6)]:
+        q.append("next_child %d" % o)
+    q.append("memory_parents_depth")
+    for ty in range(-1, 22):
+        q.append("type_kind %d" % ty)
+    for gd in (0, 1, 2, 3, 7, 4294967295):
+        for mode in (0, 1, 2):
+            q.append("type_depth_attr 13 %d %d" % (gd, mode))
+    for ty in some(list(range(20)), 6):
+        q.append("type_depth_attr %d %d 0" % (ty, rng.choice([0, 1, 4294967295])))
+    for sname in ["Group0", "Group1", "Group2", "group", "Group7", "Core", "PU", "L2Cache", "L1i", "L3", "NUMANode", "Package", "Machine",
+                  "OSDev", "PCIDev", "Bridge", "Misc", "MemCache", "Die", "foo", "Gr", "l1icache", "HostBridge", "GPU"]:
+        q.append("sscanf_depth " + sname)
     for ty in range(-1, 22):
         q.append("type_depth %d" % ty)
     for d in range(-10, t.depth + 2):
